@@ -23,8 +23,11 @@ class Dec:
 
 def sums_of(ctx: Ctx, fi: FunctionInfo, **kw) -> List[PathSummary]:
     def nonempty(fornode, env):
+        it = fornode.iter
+        if isinstance(it, ast.Call) and isinstance(it.func, ast.Attribute) and it.func.attr in ("split", "rsplit", "splitlines") and it.func.attr != "splitlines":
+            return True  # str.split never returns an empty list when given a separator
         try:
-            v = try_ev(ctx, fi, fornode.iter)
+            v = try_ev(ctx, fi, it)
             return v is not None and len(v) > 0
         except Exception:
             return False
@@ -37,6 +40,7 @@ def sums_of(ctx: Ctx, fi: FunctionInfo, **kw) -> List[PathSummary]:
     k = (fi.fq, tuple(sorted((a, repr(b)) for a, b in kw.items() if not callable(b))))
     if k not in cache:
         recs = {fq.rsplit(".", 1)[-1]: [f for f, _ in fields] for fq, fields in ctx.p.records().items()}
+        kw.setdefault("pure_calls", set(recs) | {"Beat", "Decimal", "Fraction", "MSDParameter", "Beat.from_str", "Beat.tick"})  # immutable value types
         cache[k] = summaries(ctx, fi, fold=lambda e: try_ev(ctx, fi, e), records=recs, **kw)
     return cache[k]
 
@@ -87,6 +91,36 @@ def resolved(s: PathSummary, v: Optional[ast.AST], before: Optional[int] = None,
         before, v = r[0], r[1].value
         depth -= 1
     return v
+
+
+def closed(s: PathSummary, e: Optional[ast.AST], before: Optional[int] = None, depth: int = 4, keep: Sequence[str] = ()) -> Optional[ast.AST]:
+    """*e* with the opaque locals it mentions replaced by what they were bound to on this path (constructor results, call results)."""
+    import copy as _copy
+    if e is None:
+        return None
+    before = len(s.effects) if before is None else before
+
+    class T(ast.NodeTransformer):
+        def __init__(self, d):
+            self.d = d
+
+        def visit_Name(self, n: ast.Name):
+            if isinstance(n.ctx, ast.Load) and self.d > 0 and n.id not in keep:
+                r = s.resolve(n.id, before)
+                if r is not None and r[1].value is not None and isinstance(r[1].target, ast.Name) and not (isinstance(r[1].value, ast.Name) and r[1].value.id == n.id):
+                    return T(self.d - 1).visit(_copy.deepcopy(r[1].value))
+            return n
+
+        def visit_Lambda(self, n):
+            return n
+
+    return T(depth).visit(_copy.deepcopy(e))
+
+
+def closed_text(s: PathSummary, eff: Eff, keep: Sequence[str] = ()) -> str:
+    i = s.effects.index(eff)
+    e2 = Eff(eff.kind, closed(s, eff.target, i, keep=keep) if eff.kind != "bind" else eff.target, closed(s, eff.value, i, keep=keep), eff.line, eff.loops, eff.raw)
+    return e2.text
 
 
 def terminal_text(s: PathSummary) -> str:
